@@ -4,6 +4,7 @@ sys.path.insert(0, os.path.join(os.path.dirname(os.path.abspath(__file__)), '..'
 from pcore_facts import facts_hook
 
 CONF = {
+    'coq_sample': 12,   # cases re-evaluated inside Coq by vm_compute against the extracted runner's output
     'interesting': ['accessor-stops-early', 'accessor-after-error', 'multi-layer-decoder', 'class-lookup',
                     'error-after-add', 'panic-after-add', 'nested'],
     'rule': ('Scripted decoder families (1-7 decoders, 1-3 data-dependent variants each: layers added, kind setters, '
